@@ -12,6 +12,7 @@ import (
 
 	"github.com/samber/lo"
 
+	"github.com/fatedier/frp/pkg/config/types"
 	v1 "github.com/fatedier/frp/pkg/config/v1"
 	"github.com/fatedier/frp/pkg/msg"
 	plugin "github.com/fatedier/frp/pkg/plugin/server"
@@ -37,17 +38,35 @@ import (
 //	                          the session (VerifSessDump, event driven)
 //	  F:<id>:<kind>:<x1>:<x2> every plugin registered with this id answers with this script from now on
 //	  N:<i>:<name>            NewProxy (stcp) on slot i
-//	  P:<i>[:<key>]           Ping on slot i carrying this privilege key (Timestamp 1); the result says whether
-//	                          the session's lastPing moved (Service.VerifAuthSessions before / after the Pong)
+//	  P:<i>[:<cred>]          Ping on slot i carrying these credentials (privilege key[@timestamp], see credStr); the
+//	                          result says whether the session's lastPing moved (Service.VerifAuthSessions before /
+//	                          after the Pong)
 //	  Z:<sec>                 (before the first L) transport.heartbeatTimeout of this server (default 90)
-//	  A                       (before the first L) auth.additionalScopes = [HeartBeats]: VerifyPing checks the key
+//	  A:<h|w|hw>:<c>/<c>…     (before the first L) auth.additionalScopes = [HeartBeats] (h) / [NewWorkConns] (w) / both:
+//	                          VerifyPing / VerifyNewWorkConn check the credentials; the <c> are the credentials the
+//	                          verifier accepts among those the history can produce (computed with util.GetAuthKey)
 //	  W:<ds>                  real time passes: the history keeps an absolute schedule (start + the sum of the W
 //	                          steps so far, in 1/10 s); sleeps until the schedule is reached, then reports the
 //	                          sessions the server dropped by itself (heartbeat timeout) and that no earlier step
 //	                          saw closed.  If the steps since the previous W overran the schedule by more than
 //	                          250 ms the whole history is void (`infra late`)
-//	  C:<k>                   a user connection (visitor) for the proxy registered by step k (an N step);
-//	                          when the server asks for a work connection one is offered (NewWorkConn)
+//	  C:<k>[:<cred>]          a user connection (visitor) for the proxy registered by step k (an N step; `^`: the one
+//	                          registered last among those whose session the peer still holds);
+//	                          when the server asks for a work connection one is offered (NewWorkConn with these credentials)
+//	  J:<item>/<item>…:<act>/<act>…   occurrences IN FLIGHT TOGETHER: from here to the end of the step the plugin server
+//	                          records every request and then holds its answer back until the script releases it
+//	                            item  c<k>~<cred>~<ip>   as C:<k>:<cred>, the user connection dialled from 127.0.0.<ip>
+//	                                  p<i>~<cred>        as P   n<i>~<name>   as N   (one p / n per slot: a session's
+//	                                                     dispatcher handles its messages one after the other)
+//	                            act   r<j>               the plugin holding a request of item j answers it (with its
+//	                                                     script of this moment); waits until item j is held by its next
+//	                                                     plugin (or, its user connection let through, by the first plugin
+//	                                                     of its work connection) or its outcome is known
+//	                                  f<id>~<kind>~<x1>~<x2>  as F
+//	                          the items are launched one after the other, each until its first plugin holds it; at the end of
+//	                          the script whatever is still held is released item by item.  r = the items' results joined
+//	                          by `&`, w = the requests of each item (attributed by their own content: remote address of
+//	                          the user connection, run id, …) joined by `&`; requests that belong to no item: `&?…`
 //
 // result: H=<r,r,…> | <w;w;…>   one r and one w per step
 //
@@ -59,7 +78,8 @@ import (
 //	   (dead: the harness holds no usable control connection for that slot; closed: the server hung up)
 //	w: the requests the plugin server received during that step, `+`-joined, in arrival order (steps are
 //	   sequential: a step ends when the peer saw its outcome); CloseProxy notifications (asynchronous,
-//	   judged by `sess`) are left out; the address members (Login, NewUserConn) are blanked.
+//	   judged by `sess`) are left out; the address members (Login, NewUserConn) are blanked; `:RID` marks a
+//	   NewWorkConn request whose run id is not that of the session it is offered under.
 type histSlot struct {
 	conn   net.Conn
 	crw    io.ReadWriter
@@ -73,7 +93,7 @@ type histSlot struct {
 	gone     bool // the server hung up (seen by a step, or reported by a W step)
 }
 
-func histStartFrps(hbTimeout int64, hbScope bool) (*server.Service, string, func(), string) {
+func histStartFrps(hbTimeout int64, hbScope, wkScope bool) (*server.Service, string, func(), string) {
 	bad := ""
 	for try := 0; try < 3; try++ { // the port found free may be taken again before the service binds it
 		l, err := net.Listen("tcp", "127.0.0.1:0")
@@ -90,11 +110,19 @@ func histStartFrps(hbTimeout int64, hbScope bool) (*server.Service, string, func
 		cfg.BindPort = port
 		cfg.Transport.TCPMux = lo.ToPtr(false)
 		cfg.UserConnTimeout = 1
+		// the scenarios ask for stcp proxies (a plugin may still turn one into a tcp proxy with a port of the server's choice:
+		// a small range, away from the ephemeral ports).  Each of the two port managers of a Service otherwise
+		// keeps a 65535-entry table that its cleaning goroutine (never stopped) holds on to for the rest of the process:
+		// ~3 MB per Service, several GB over a long run
+		cfg.AllowPorts = []types.PortsRange{{Start: 13000, End: 13127}}
 		if hbTimeout > 0 {
 			cfg.Transport.HeartbeatTimeout = hbTimeout
 		}
 		if hbScope {
-			cfg.Auth.AdditionalScopes = []v1.AuthScope{v1.AuthScopeHeartBeats}
+			cfg.Auth.AdditionalScopes = append(cfg.Auth.AdditionalScopes, v1.AuthScopeHeartBeats)
+		}
+		if wkScope {
+			cfg.Auth.AdditionalScopes = append(cfg.Auth.AdditionalScopes, v1.AuthScopeNewWorkConns)
 		}
 		cfg.Transport.TLS.CertFile, cfg.Transport.TLS.KeyFile = siteCert()
 		cfg.HTTPPlugins = append([]v1.HTTPPluginOptions{}, pst.httpRegs...)
@@ -113,6 +141,7 @@ func histStartFrps(hbTimeout int64, hbScope bool) (*server.Service, string, func
 func histRun(script string) string {
 	pst.mu.Lock()
 	pst.wire = nil
+	pst.wireGen++
 	saved := map[string]*plugScript{}
 	for k, v := range pst.scripts {
 		saved[k] = v
@@ -128,21 +157,21 @@ func histRun(script string) string {
 
 	steps := strings.Split(script, ",")
 	// the server's configuration: Z / A steps, only ahead of everything else
-	hbTimeout, hbScope, head := int64(0), false, true
+	hbTimeout, hbScope, wkScope, head := int64(0), false, false, true
 	for _, st := range steps {
 		f := strings.Split(st, ":")
 		switch {
 		case f[0] == "Z" && len(f) == 2 && head:
 			hbTimeout = int64(atoi(f[1]))
-		case f[0] == "A" && len(f) == 1 && head:
-			hbScope = true
+		case f[0] == "A" && len(f) == 3 && head && (f[1] == "h" || f[1] == "w" || f[1] == "hw"):
+			hbScope, wkScope = strings.Contains(f[1], "h"), strings.Contains(f[1], "w")
 		case f[0] == "Z" || f[0] == "A":
 			return "bad-op"
 		default:
 			head = false
 		}
 	}
-	svr, addr, stop, bad := histStartFrps(hbTimeout, hbScope)
+	svr, addr, stop, bad := histStartFrps(hbTimeout, hbScope, wkScope)
 	if bad != "" {
 		return bad
 	}
@@ -192,6 +221,23 @@ func histRun(script string) string {
 		name string
 	}
 	byStep := map[int]histProxy{} // N steps that were answered ok
+	nRegJ := 0                    // proxies registered by n items of J steps
+	// the proxy an item refers to: by the N step that registered it, or (k < 0) the one registered last among those
+	// whose session the peer still holds
+	proxyOf := func(k int) (histProxy, bool) {
+		if k >= 0 {
+			p, ok := byStep[k]
+			return p, ok
+		}
+		best := -1
+		for si, p := range byStep {
+			if s := slots[p.slot]; si > best && s.usable && !s.replaced {
+				best = si
+			}
+		}
+		p, ok := byStep[best]
+		return p, ok
+	}
 	outs, wires := []string{}, []string{}
 	mark := 0
 	takeWire := func() string {
@@ -207,7 +253,7 @@ func histRun(script string) string {
 			if e.op == plugin.OpLogin || e.op == plugin.OpNewUserConn {
 				b = ""
 			}
-			parts = append(parts, fmt.Sprintf("%s:%d:%s:%s%s", e.op, e.id, hx(e.a), hx(b), lo.Ternary(e.r0, ":R0", "")))
+			parts = append(parts, fmt.Sprintf("%s:%d:%s:%s%s%s", e.op, e.id, hx(e.a), hx(b), lo.Ternary(e.r0, ":R0", ""), lo.Ternary(e.ridBad, ":RID", "")))
 		}
 		mark = len(w)
 		if len(parts) == 0 {
@@ -338,15 +384,42 @@ func histRun(script string) string {
 			if len(f) != 5 {
 				return "bad-op"
 			}
-			id := atoi(f[1])
+			histFlip(atoi(f[1]), f[2], unhx(f[3]), unhx(f[4]))
+		case "Z", "A":
+		case "J":
+			if len(f) != 3 {
+				return "bad-op"
+			}
+			jb := &histJ{addr: addr, ts: ts, slots: slots, byStep: func(k int) (int, string, bool) { p, ok := proxyOf(k); return p.slot, p.name, ok }}
+			jout, jwire, pingedSlots, nReg, bad := jb.run(f[1], f[2])
+			if bad != "" {
+				return bad
+			}
+			open = append(open, jb.conns...)
+			nRegJ += nReg
 			pst.mu.Lock()
-			for k, v := range pst.scripts {
-				if v.id == id {
-					pst.scripts[k] = &plugScript{f[2], unhx(f[3]), unhx(f[4]), id}
+			mark = len(pst.wire)
+			pst.mu.Unlock()
+			mv := moved(slots)
+			for k, i := range pingedSlots { // per p item that got a Pong: did the session's lastPing move?
+				if i >= 0 {
+					jout[k] += lo.Ternary(mv[i], "+", "=")
+					delete(mv, i)
 				}
 			}
-			pst.mu.Unlock()
-		case "Z", "A":
+			out = strings.Join(jout, "&")
+			if len(mv) > 0 {
+				ids := []string{}
+				for i := range slots {
+					if mv[i] {
+						ids = append(ids, strconv.Itoa(i))
+					}
+				}
+				out += "!" + strings.Join(ids, ".")
+			}
+			outs = append(outs, out)
+			wires = append(wires, jwire)
+			continue
 		case "W":
 			if len(f) != 2 {
 				return "bad-op"
@@ -391,11 +464,12 @@ func histRun(script string) string {
 					hungUp(s)
 				}
 			} else {
-				key := ""
+				cred := ""
 				if len(f) > 2 {
-					key = unhx(f[2])
+					cred = unhx(f[2])
 				}
-				_ = msg.WriteMsg(s.crw, &msg.Ping{PrivilegeKey: key, Timestamp: 1})
+				key, kts := credSplit(cred)
+				_ = msg.WriteMsg(s.crw, &msg.Ping{PrivilegeKey: key, Timestamp: kts})
 				if r, ok := next(s).(*msg.Pong); ok {
 					// handlePing stores lastPing before it sends the Pong: `+` / `=` is appended below
 					out = lo.Ternary(r.Error == "", "ok", "no")
@@ -406,7 +480,11 @@ func histRun(script string) string {
 				}
 			}
 		case "C":
-			p, ok := byStep[atoi(f[1])]
+			ck := -1
+			if f[1] != "^" {
+				ck = atoi(f[1])
+			}
+			p, ok := proxyOf(ck)
 			if !ok {
 				break
 			}
@@ -474,7 +552,12 @@ func histRun(script string) string {
 			}
 			open = append(open, wc)
 			_ = wc.SetDeadline(time.Now().Add(2 * time.Second))
-			_ = msg.WriteMsg(wc, &msg.NewWorkConn{RunID: s.rid, Timestamp: ts, PrivilegeKey: util.GetAuthKey("", ts)})
+			wcred := ""
+			if len(f) > 2 {
+				wcred = unhx(f[2])
+			}
+			wkey, wts := credSplit(wcred)
+			_ = msg.WriteMsg(wc, &msg.NewWorkConn{RunID: s.rid, Timestamp: wts, PrivilegeKey: wkey})
 			var sw msg.StartWorkConn
 			w := ""
 			if err := msg.ReadMsgInto(wc, &sw); err != nil {
@@ -540,7 +623,7 @@ func histRun(script string) string {
 			nClose++
 		}
 	}
-	want := len(byStep) * nClose
+	want := (len(byStep) + nRegJ) * nClose
 	for i := 0; i < 500; i++ {
 		pst.mu.Lock()
 		n := 0
@@ -558,6 +641,16 @@ func histRun(script string) string {
 	return "H=" + strings.Join(outs, ",") + " | " + strings.Join(wires, ";")
 }
 
+func histFlip(id int, kind, x1, x2 string) {
+	pst.mu.Lock()
+	for k, v := range pst.scripts {
+		if v.id == id {
+			pst.scripts[k] = &plugScript{kind, x1, x2, id}
+		}
+	}
+	pst.mu.Unlock()
+}
+
 // ---- generator: histories as a class
 //
 // every history starts with a login; then logins of every kind (empty run id, literal run id — fresh or
@@ -566,23 +659,67 @@ func histRun(script string) string {
 // content dependent reject or failure / HTTP error / malformed), and repeated NewProxy (same and other
 // names, same and other sessions), Ping, user + work connections, and connection closes.
 var (
-	histFlipK = []string{"hacc", "hacc", "happ", "happ", "happ", "hrej", "hrej", "hrejU", "hrejsuf", "herrsuf", "hpart", "hs500", "hmal", "haccC", "hempty", "hreset"}
+	histFlipK = []string{"hacc", "hacc", "happ", "happ", "happ", "hrej", "hrej", "hrejU", "hrejsuf", "herrsuf", "hpart", "hs500", "hmal", "haccC", "hempty", "hreset", "hxlat", "hsub"}
 	histUsers = []string{"", "u", "alice", "né", "bob"}
 	histNames = []string{"p", "web", "p+1", "né", "q"}
 	histRids  = []string{"r1", "r2", "zz"}
-	// privilege keys of the scripted Pings: what the Ping plugins see as member `a` (content dependent
-	// behaviours look at its ending); the first one is what VerifyPing asks for when the HeartBeats scope is on
-	histKeys = []string{util.GetAuthKey("", 1), "", "k1", "k2", "zz", "p"}
+	// credentials (privilege key[@timestamp], see credStr) of the scripted Pings and work connections: what the Ping /
+	// NewWorkConn plugins see as member `a` (content dependent behaviours look at its ending).  histValid are the ones
+	// the verifier accepts (token ""); histTickets are what a peer that relies on a translating plugin sends
+	histValid   = []string{util.GetAuthKey("", 0), credStr(util.GetAuthKey("", 7), 7)}
+	histTickets = []string{"tkt", "t2"}
+	histKeys    = []string{util.GetAuthKey("", 0), "", "k1", "k2", "zz", "p", credStr(util.GetAuthKey("", 7), 7), "tkt", "t2", credStr(util.GetAuthKey("", 0), 7)}
 )
 
 func histKey(rng *rand.Rand, scope bool) string {
-	if scope && rng.Intn(4) != 0 {
-		return histKeys[0]
+	if scope {
+		switch r := rng.Intn(8); {
+		case r < 4:
+			return pick(rng, histValid)
+		case r < 6:
+			return pick(rng, histTickets)
+		}
 	}
 	return pick(rng, histKeys)
 }
 
-func plugGenHist(rng *rand.Rand, maxID int) string {
+func histScopeStep(h, w bool) string {
+	v := make([]string, len(histValid))
+	for i, c := range histValid {
+		v[i] = hx(c)
+	}
+	return "A:" + lo.Ternary(h, "h", "") + lo.Ternary(w, "w", "") + ":" + strings.Join(v, "/")
+}
+
+// x1, x2 of a scripted behaviour; creds: the plugin is asked about credentials (Ping / NewWorkConn)
+func histFlipArgs(rng *rand.Rand, kind string, creds bool) (string, string) {
+	sufs := []string{"p", "e", "b", "u", "1", "2", "q", "z", "a", "c", "7", "t", ""}
+	x1, x2 := "", ""
+	switch kind {
+	case "happ", "hpart", "haccC":
+		x1 = pick(rng, plugTags)
+	case "hrej", "hrejU":
+		x1 = pick(rng, plugReasons)
+	case "hrejsuf":
+		x1, x2 = pick(rng, sufs), pick(rng, plugReasons)
+	case "herrsuf":
+		x1 = pick(rng, sufs)
+	case "hmal":
+		x1 = pick(rng, plugMalBody)
+	case "hxlat", "hsub":
+		if creds || rng.Intn(3) == 0 {
+			// a ticket (or some other credentials) becomes credentials the verifier accepts — or does not
+			x1 = pick(rng, append(append([]string{}, histTickets...), histTickets[0], histValid[0], "k1"))
+			x2 = pick(rng, append(append([]string{}, histValid...), histValid[0], "k1", histTickets[0]))
+		} else {
+			x1 = pick(rng, append(append([]string{}, histNames...), histUsers...))
+			x2 = pick(rng, append(append([]string{}, histNames...), histUsers...))
+		}
+	}
+	return x1, x2
+}
+
+func plugGenHist(rng *rand.Rand, maxID int, opsOf map[int][]string) string {
 	steps := []string{}
 	nL := 0
 	nSteps := []int{} // indexes of N steps
@@ -600,27 +737,34 @@ func plugGenHist(rng *rand.Rand, maxID int) string {
 		steps = append(steps, "L:"+rid+":"+hx(pick(rng, histUsers)))
 		nL++
 	}
-	flip := func(id int, kinds []string) {
-		kind := pick(rng, kinds)
-		x1, x2 := "", ""
-		sufs := []string{"p", "e", "b", "u", "1", "2", "q", "z", "a", "c", "7", ""}
-		switch kind {
-		case "happ", "hpart", "haccC":
-			x1 = pick(rng, plugTags)
-		case "hrej", "hrejU":
-			x1 = pick(rng, plugReasons)
-		case "hrejsuf":
-			x1, x2 = pick(rng, sufs), pick(rng, plugReasons)
-		case "herrsuf":
-			x1 = pick(rng, sufs)
-		case "hmal":
-			x1 = pick(rng, plugMalBody)
+	has := func(id int, op string) bool { return lo.Contains(opsOf[id], op) }
+	credIDs := []int{} // plugins that are asked about credentials
+	connIDs := []int{} // plugins that are asked about user / work connections
+	for id := 1; id <= maxID; id++ {
+		if has(id, "Ping") || has(id, "NewWorkConn") {
+			credIDs = append(credIDs, id)
 		}
-		steps = append(steps, fmt.Sprintf("F:%d:%s:%s:%s", id, kind, hx(x1), hx(x2)))
+		if has(id, "NewUserConn") || has(id, "NewWorkConn") {
+			connIDs = append(connIDs, id)
+		}
 	}
-	scope := rng.Intn(7) == 0
-	if scope {
-		steps = append(steps, "A")
+	flipTok := func(id int, kinds []string, sep string) string {
+		kind := pick(rng, kinds)
+		x1, x2 := histFlipArgs(rng, kind, lo.Contains(credIDs, id) && rng.Intn(2) == 0)
+		return strconv.Itoa(id) + sep + kind + sep + hx(x1) + sep + hx(x2)
+	}
+	flip := func(id int, kinds []string) { steps = append(steps, "F:"+flipTok(id, kinds, ":")) }
+	hScope, wScope := false, false
+	switch r := rng.Intn(10); {
+	case r == 0:
+		hScope = true
+	case r < 3:
+		wScope = true
+	case r == 3:
+		hScope, wScope = true, true
+	}
+	if hScope || wScope {
+		steps = append(steps, histScopeStep(hScope, wScope))
 	}
 	if rng.Intn(10) < 6 {
 		// start from plugins that all consent (accept or rewrite); the history then flips some of them
@@ -628,25 +772,105 @@ func plugGenHist(rng *rand.Rand, maxID int) string {
 			flip(id, []string{"hacc", "happ"})
 		}
 	}
+	if (hScope || wScope) && len(credIDs) > 0 && rng.Intn(3) != 0 {
+		// a plugin that rewrites credentials: a translator (ticket ↦ credentials the server accepts), a substitution,
+		// or one that spoils whatever it is handed
+		flip(pick(rng, credIDs), []string{"hxlat", "hxlat", "hsub", "hsub", "happ", "hpart"})
+	}
 	login()
+	// credentials of a work connection / a Ping
+	wcred := func() string { return histKey(rng, wScope) }
+	// several occurrences in flight together (J): mostly user connections to one proxy from the same address and
+	// from others, their work connections, and Pings / NewProxys of the sessions, released in any order with changes
+	// of mind in between
+	jstep := func() string {
+		n := 2 + rng.Intn(3)
+		items := []string{}
+		k := strconv.Itoa(nSteps[rng.Intn(len(nSteps))])
+		if rng.Intn(3) != 0 {
+			k = "^"
+		}
+		used := map[int]bool{}
+		for i := 0; i < n; i++ {
+			switch r := rng.Intn(10); {
+			case r < 7 || i == 0:
+				if rng.Intn(4) == 0 {
+					k = strconv.Itoa(nSteps[rng.Intn(len(nSteps))])
+				}
+				ip := 1
+				if rng.Intn(3) == 0 {
+					ip = 2 + rng.Intn(2)
+				}
+				items = append(items, fmt.Sprintf("c%s~%s~%d", k, hx(wcred()), ip))
+			default:
+				s := rng.Intn(nL)
+				if rng.Intn(2) == 0 {
+					s = nL - 1 - rng.Intn(lo.Min([]int{nL, 2}))
+				}
+				if used[s] && rng.Intn(4) != 0 {
+					s = rng.Intn(nL)
+				}
+				used[s] = true
+				if r < 9 {
+					items = append(items, fmt.Sprintf("p%d~%s", s, hx(histKey(rng, hScope))))
+				} else {
+					items = append(items, fmt.Sprintf("n%d~%s", s, hx(pick(rng, histNames))))
+				}
+			}
+		}
+		acts := []string{}
+		rounds := 1 + rng.Intn(3)
+		for r := 0; r < rounds; r++ {
+			order := rng.Perm(n)
+			for _, i := range order {
+				if maxID > 0 && rng.Intn(10) < 4 {
+					id := 1 + rng.Intn(maxID)
+					if len(connIDs) > 0 && rng.Intn(3) != 0 {
+						id = pick(rng, connIDs)
+					}
+					acts = append(acts, "f"+flipTok(id, []string{"hrej", "hrej", "hrejU", "hacc", "hacc", "happ", "hs500", "hreset", "hrejsuf", "herrsuf", "hxlat", "hsub"}, "~"))
+				}
+				if rng.Intn(8) != 0 {
+					acts = append(acts, "r"+strconv.Itoa(i))
+				}
+			}
+		}
+		if len(acts) == 0 {
+			acts = append(acts, "-")
+		}
+		return "J:" + strings.Join(items, "/") + ":" + strings.Join(acts, "/")
+	}
 	k := 2 + rng.Intn(10)
 	for i := 0; i < k; i++ {
 		if maxID > 0 && rng.Intn(10) < 3 {
 			// a plugin changes its mind right before the next operation
-			flip(1+rng.Intn(maxID), []string{"hrej", "hrejU", "hrejsuf", "hrejsuf", "herrsuf", "hs500", "hreset", "happ", "hpart", "hacc"})
+			flip(1+rng.Intn(maxID), []string{"hrej", "hrejU", "hrejsuf", "hrejsuf", "herrsuf", "hs500", "hreset", "happ", "hpart", "hacc", "hxlat", "hsub"})
 		}
 		switch r := rng.Intn(100); {
-		case r < 25:
+		case r < 22:
 			login()
-		case r < 35 && maxID > 0:
+		case r < 31 && maxID > 0:
 			flip(1+rng.Intn(maxID), histFlipK)
-		case r < 58 || (r >= 68 && r < 90 && len(nSteps) == 0):
+		case r < 52 || (r >= 62 && r < 90 && len(nSteps) == 0):
 			nSteps = append(nSteps, len(steps))
 			steps = append(steps, "N:"+strconv.Itoa(rng.Intn(nL))+":"+hx(pick(rng, histNames)))
-		case r < 68:
-			steps = append(steps, "P:"+strconv.Itoa(rng.Intn(nL))+":"+hx(histKey(rng, scope)))
+		case r < 62:
+			steps = append(steps, "P:"+strconv.Itoa(rng.Intn(nL))+":"+hx(histKey(rng, hScope)))
+		case r < 76:
+			steps = append(steps, "C:"+lo.Ternary(rng.Intn(2) == 0, "^", strconv.Itoa(nSteps[rng.Intn(len(nSteps))]))+":"+hx(wcred()))
 		case r < 90:
-			steps = append(steps, "C:"+strconv.Itoa(nSteps[rng.Intn(len(nSteps))]))
+			if rng.Intn(2) == 0 {
+				// make sure somebody is there: everybody consents for a moment, a fresh session registers a proxy; the
+				// refusals then come from the changes of mind inside the J step
+				for id := 1; id <= maxID; id++ {
+					flip(id, []string{"hacc", "hacc", "happ"})
+				}
+				steps = append(steps, "L:e:"+hx(pick(rng, histUsers)))
+				nL++
+				nSteps = append(nSteps, len(steps))
+				steps = append(steps, "N:"+strconv.Itoa(nL-1)+":"+hx(pick(rng, histNames)))
+			}
+			steps = append(steps, jstep())
 		default:
 			steps = append(steps, "X:"+strconv.Itoa(rng.Intn(nL)))
 		}
@@ -668,7 +892,7 @@ func plugGenBeat(rng *rand.Rand, pingIDs []int) string {
 	steps := []string{"Z:" + strconv.Itoa(hb)}
 	scope := rng.Intn(4) == 0
 	if scope {
-		steps = append(steps, "A")
+		steps = append(steps, histScopeStep(true, false))
 	}
 	flip := func(kinds []string, sufs []string) {
 		if len(pingIDs) == 0 {
